@@ -97,7 +97,7 @@ fn loop_family(thorough: bool) -> Vec<Prog> {
     ("B>i", "B > I"), ("B>=i", "B >= I"), ("B<i", "B < I"), ("B<=i", "B <= I"), ("B!=i", "B != I"),
     ("i*2<B", "I * 2 < B"), ("i+1<B", "I + 1 < B"),
   ];
-  let steps: Vec<i64> = if thorough { vec![1, 2, 3, -1, -2, -3, 1_000_000_000, -1_000_000_000] } else { vec![1, 2, -1, 1_000_000_000] };
+  let steps: Vec<i64> = if thorough { vec![1, 2, 3, -1, -2, 1_000_000_000, -1_000_000_000] } else { vec![1, 2, -1, 1_000_000_000] };
   let updates: Vec<(&str, &str, bool)> = vec![
     ("acc+i", "acc + I", false),
     ("acc+i*3", "acc + I * 3", false),
@@ -115,7 +115,7 @@ fn loop_family(thorough: bool) -> Vec<Prog> {
   ];
   let results: Vec<(&str, &str)> = vec![("acc", "acc"), ("i", "I"), ("acc+i", "acc + I"), ("i*3+1", "I * 3 + 1")];
   let bounds: Vec<i64> = if thorough {
-    vec![0, 1, 5, -5, 1_000_000_000, 2_000_000_000, -2_000_000_000, 2147483644, 2147483647, -2147483648, -2147483645]
+    vec![0, 5, -5, 2_000_000_000, -2_000_000_000, 2147483647, -2147483645]
   } else {
     vec![5, -5, 2_000_000_000, 2147483647]
   };
@@ -132,7 +132,7 @@ fn loop_family(thorough: bool) -> Vec<Prog> {
           for b in &bounds {
             for counter in ["i", "z"] {
               // quick: the second name order only for the first stride
-              if !thorough && counter == "z" && *step != steps[0] {
+              if counter == "z" && *step != steps[0] {
                 continue;
               }
               // starts around the bound such that the loop runs a handful of iterations
